@@ -159,7 +159,7 @@ package heapz
 //@   ih s, off, f, n-1
 //@   requires (forall a: !cmpapp(f, a, a)) && (forall a, b, c: (!cmpapp(f, a, b) && !cmpapp(f, b, c)) ==> !cmpapp(f, a, c))
 //@   requires forall c in 1..n: !cmpapp(f, s[off+c], s[off+(c-1)/2])
-//@   ensures forall k in 0..n: !cmpapp(f, s[off+k], s[off])
+//@   ensures forall k in off..off+n: !cmpapp(f, s[k], s[off])
 
 //@ func Slice.Pop
 //@   ghost lo = 0
